@@ -930,7 +930,9 @@ class Simplifier(pysmt.walkers.DagWalker):
         s, i = args
         if s.is_string_constant() and i.is_int_constant():
             i_value = cast(int, i.constant_value())
-            res = cast(str, s.constant_value())[i_value:i_value + 1]
+            s_value = cast(str, s.constant_value())
+            # SMT-LIB: out of range (incl. negative) indexes give ""
+            res = s_value[i_value] if 0 <= i_value < len(s_value) else ""
             return self.manager.String(res)
         return self.manager.StrCharAt(s, i)
 
@@ -944,10 +946,12 @@ class Simplifier(pysmt.walkers.DagWalker):
     def walk_str_indexof(self, formula: FNode, args: List[FNode], **kwargs) -> FNode:
         s, t, i = args
         if s.is_string_constant() and t.is_string_constant() and i.is_int_constant():
-            idx = cast(str, s.constant_value()).find(
-                cast(str, t.constant_value()),
-                cast(int, i.constant_value()),
-            )
+            s_value = cast(str, s.constant_value())
+            i_value = cast(int, i.constant_value())
+            # SMT-LIB: -1 if the start index is out of range (incl. negative)
+            idx = -1
+            if 0 <= i_value <= len(s_value):
+                idx = s_value.find(cast(str, t.constant_value()), i_value)
             # idx = -1, if t is not found
             return self.manager.Int(idx)
         return self.manager.StrIndexOf(s, t, i)
@@ -966,7 +970,12 @@ class Simplifier(pysmt.walkers.DagWalker):
         if s.is_string_constant() and i.is_int_constant() and j.is_int_constant():
             start_ = cast(int, i.constant_value())
             end_ = cast(int, i.constant_value()) + cast(int, j.constant_value())
-            res = cast(str, s.constant_value())[start_:end_]
+            s_value = cast(str, s.constant_value())
+            # SMT-LIB: "" if the start is out of range (incl. negative)
+            # or the length is not positive
+            res = ""
+            if 0 <= start_ < len(s_value) and start_ < end_:
+                res = s_value[start_:end_]
             return self.manager.String(res)
         return self.manager.StrSubstr(s, i, j)
 
@@ -985,10 +994,12 @@ class Simplifier(pysmt.walkers.DagWalker):
     def walk_str_to_int(self, formula: FNode, args: List[FNode], **kwargs) -> FNode:
         s = args[0]
         if s.is_string_constant():
-            try:
-                return self.manager.Int(int(s.constant_value()))
-            except ValueError:
-                return self.manager.Int(-1)
+            s_value = cast(str, s.constant_value())
+            # SMT-LIB: only non-empty sequences of ASCII digits are numerals
+            # (int() would also accept signs, blanks, '_' and other digits)
+            if s_value != "" and all(c in "0123456789" for c in s_value):
+                return self.manager.Int(int(s_value))
+            return self.manager.Int(-1)
         return self.manager.StrToInt(s)
 
     def walk_int_to_str(self, formula: FNode, args: List[FNode], **kwargs) -> FNode:
